@@ -1,6 +1,8 @@
 (* Line-protocol driver of the extracted write-side model of component `wsconc` (stdin -> stdout, one answer per line,
    flushed).
      init <d|q> <maxq>          new run: direct / queued mode, queue bound (0 = unbounded)          -> OK
+     m <limit> <mid> <ctl 0|1> <raw> <z|->   begin_msg: a WriteMessage of raw bytes, deflated to z bytes when compression applies
+                                (frames mid*100+j, as many as the bytes that go out need)  -> like b
      b <id,id,...>              Begin fs                       -> B <- | closed | full>   (refused as a whole, or the call goes on)
      f <ok 0|1>                 Frame ok                       -> F <- | ok | closed | full | err> <head 0|1>
      w <ok 0|1>                 DWrite ok                      -> W
@@ -55,6 +57,9 @@ let () =
         | ["b"; l] ->
             let fs = if l = "-" then [] else List.map int_of_string (String.split_on_char ',' l) in
             act (Begin fs)
+        | ["m"; limit; mid; ctl; raw; z] ->
+            let zz = if z = "-" then None else Some (int_of_string z) in
+            act (begin_msg (int_of_string limit) (int_of_string mid) (ctl = "1") (int_of_string raw) zz)
         | ["f"; ok] -> act (Frame (ok = "1"))
         | ["w"; ok] -> act (DWrite (ok = "1"))
         | ["a"] -> act DAdvance
